@@ -230,6 +230,18 @@ func (s *Sim) Judge(stranded []string) []Finding {
 				okRe++
 			}
 		}
+		// a transmission error (other than the context's) ends the call with that error: no further attempt
+		for i, e := range sends {
+			if e.O != SendFail {
+				continue
+			}
+			if i != len(sends)-1 {
+				add("C25", "send-after-failed-send", "call %d: transmission attempt %d failed with a transport error, yet %d more attempts followed (MaxRetries=%d, %d attempts in all): failed retransmissions are not counted against the retry limit", c.idx, i+1, len(sends)-1-i, s.Plan.MaxRetries, len(sends))
+			} else if ret != RSendErr {
+				add("C25", "send-error-not-returned", "call %d: its last transmission attempt (%d) failed with a transport error but Do returned %s", c.idx, i+1, RetName[ret])
+			}
+			break
+		}
 		if (ret == RLimit) != (okRe >= s.Plan.MaxRetries) {
 			add("C25", "retry-limit-mismatch", "call %d: %d successful retransmissions, MaxRetries=%d, returned %s", c.idx, okRe, s.Plan.MaxRetries, RetName[ret])
 		}
